@@ -594,6 +594,22 @@ func runC18Client(rcx *RunCtx) {
 		done := 0
 		for c := 0; c < ncallers; c++ {
 			simrt.GoNamed(fmt.Sprintf("caller%d", c), func() {
+				// what a call returned belongs to the caller: later replies,
+				// decoded into recycled objects, must not change it
+				type kept struct {
+					what string
+					live interface{}
+					snap string
+				}
+				var keep []kept
+				defer func() {
+					for _, k := range keep {
+						if now := fmt.Sprintf("%v", k.live); now != k.snap {
+							cw.find("result-changed-later", k.what, "a %s result handed to the caller changed while later replies were decoded: it was %s, it is %s", k.what, trunc(k.snap, 120), trunc(now, 120))
+							break
+						}
+					}
+				}()
 				for i := 0; i < n; i++ {
 					from := len(fake.Reqs)
 					k := kind
@@ -608,6 +624,9 @@ func runC18Client(rcx *RunCtx) {
 						}
 						qs, nf, err := root.Walk(names)
 						cw.hold(nf)
+						if err == nil && len(qs) > 0 {
+							keep = append(keep, kept{"Walk", qs, fmt.Sprintf("%v", qs)})
+						}
 						cw.judge("Walk", from, err, func(rep rc.Message) string {
 							r, ok := rep.(*rc.Rwalk)
 							if !ok {
@@ -642,6 +661,9 @@ func runC18Client(rcx *RunCtx) {
 						})
 					case 2:
 						ds, err := root.Readdir(0, 4000)
+						if err == nil && len(ds) > 0 {
+							keep = append(keep, kept{"Readdir", ds, fmt.Sprintf("%v", ds)})
+						}
 						cw.judge("Readdir", from, err, func(rep rc.Message) string {
 							r, ok := rep.(*rc.Rreaddir)
 							if !ok {
